@@ -29,9 +29,15 @@ func (fc *funcCtx) call(st *State, ins ssa.Instruction, com *ssa.CallCommon, isG
 			bind = append(bind, fc.val(st, b))
 		}
 	default:
-		if fv, ok := fc.val(st, com.Value).(FuncV); ok {
+		switch fv := fc.val(st, com.Value).(type) {
+		case FuncV:
 			callee = fv.Fn
 			bind = fv.Bind
+		case Sc:
+			// a function value known only by its id: a pure (deterministic) function of its arguments
+			if r, ok := fc.applyPure(st, fv, com); ok {
+				return r, false
+			}
 		}
 	}
 	var args []Value
@@ -124,6 +130,17 @@ func (fc *funcCtx) applyContract(st *State, ins ssa.Instruction, callee *ssa.Fun
 		results = append(results, v)
 		env.vars[rn] = v
 	}
+	// the callee may have allocated: results point below the new allocation counter
+	{
+		nb := st.freshConst("allocbase", SInt)
+		st.assume(app("<=", app("+", st.allocBase, smtInt(int64(st.allocOff))), nb))
+		st.allocBase, st.allocOff = nb, 0
+		for _, r := range results {
+			if sv, ok := r.(SliceV); ok {
+				st.assume(app("<", sv.Ref, nb))
+			}
+		}
+	}
 	for _, en := range con.Ensures {
 		st.assume(fc.e.cevalBool(en.E, env))
 	}
@@ -148,7 +165,7 @@ func (fc *funcCtx) builtin(st *State, ins ssa.Instruction, b *ssa.Builtin, com *
 		v := fc.val(st, com.Args[0])
 		switch x := v.(type) {
 		case Sc:
-			return Sc{app("str.len", x.T), SInt}
+			return Sc{app("gs.len", x.T), SInt}
 		case SliceV:
 			if b.Name() == "cap" {
 				return Sc{x.Cap, SInt}
@@ -224,12 +241,16 @@ func (fc *funcCtx) appendCall(st *State, ins ssa.Instruction, com *ssa.CallCommo
 			nh := st.freshConst("heap", heapSort(l.sort))
 			// other references unchanged; target row: old prefix kept/copied, new elements appended
 			st.assume(frameOtherRows(nh, h, ref))
-			st.assume(fmt.Sprintf("(forall ((i Int)) (! (=> (and (<= 0 i) (< i %s)) (= (select (select %s %s) (+ %s i)) (select (select %s %s) (+ %s i)))) :pattern ((select (select %s %s) (+ %s i)))))", dst.Len, nh, ref, off, h, dst.Ref, dst.Off, nh, ref, off))
+			st.assume(fmt.Sprintf("(forall ((i Int)) (! (=> (and (<= 0 i) (< i %s)) (= (select (select %s %s) (gs.ix %s i)) (select (select %s %s) (gs.ix %s i)))) :pattern ((select (select %s %s) (gs.ix %s i)))))", dst.Len, nh, ref, off, h, dst.Ref, dst.Off, nh, ref, off))
 			if srcH != "" {
-				st.assume(fmt.Sprintf("(forall ((i Int)) (! (=> (and (<= 0 i) (< i %s)) (= (select (select %s %s) (+ %s %s i)) (select (select %s %s) (+ %s i)))) :pattern ((select (select %s %s) (+ %s %s i)))))", n, nh, ref, off, dst.Len, srcH, src.Ref, src.Off, nh, ref, off, dst.Len))
+				st.assume(fmt.Sprintf("(forall ((i Int)) (! (=> (and (<= 0 i) (< i %s)) (= (select (select %s %s) (gs.ix %s (+ %s i))) (select (select %s %s) (gs.ix %s i)))) :pattern ((select (select %s %s) (gs.ix %s (+ %s i))))))", n, nh, ref, off, dst.Len, srcH, src.Ref, src.Off, nh, ref, off, dst.Len))
+			}
+			if srcH != "" && n == "1" {
+				// the common single-element append, stated without a quantifier
+				st.assume(app("=", app("select", app("select", nh, ref), elemIx(off, dst.Len)), app("select", app("select", srcH, src.Ref), elemIx(src.Off, "0"))))
 			}
 			// in place: cells of the row outside [off+len, off+len+n) keep their value
-			st.assume(fmt.Sprintf("(=> %s (forall ((j Int)) (! (=> (or (< j (+ %s %s)) (>= j (+ %s %s %s))) (= (select (select %s %s) j) (select (select %s %s) j))) :pattern ((select (select %s %s) j)))))", inPlace, off, dst.Len, off, dst.Len, n, nh, ref, h, dst.Ref, nh, ref))
+			st.assume(fmt.Sprintf("(=> %s (forall ((j Int)) (! (=> (or (< j (gs.ix %s %s)) (>= j (+ (gs.ix %s %s) %s))) (= (select (select %s %s) j) (select (select %s %s) j))) :pattern ((select (select %s %s) j)))))", inPlace, off, dst.Len, off, dst.Len, n, nh, ref, h, dst.Ref, nh, ref))
 			st.heaps[l.key] = nh
 		}
 		if fc.frameChecked() {
@@ -325,8 +346,8 @@ func (fc *funcCtx) nativeCall(st *State, ins ssa.Instruction, key string, callee
 		use(key + " appends its argument")
 		p, s := bufCell()
 		a := args[1].(Sc)
-		fc.store(st, p, Sc{app("str.cat", s.T, a.T), SStr}, ins.Pos())
-		return TupleV{Sc{app("str.len", a.T), SInt}, IfaceV{Nil: "true", Tag: "0"}}, true, false
+		fc.store(st, p, Sc{app("gs.cat", s.T, a.T), SStr}, ins.Pos())
+		return TupleV{Sc{app("gs.len", a.T), SInt}, IfaceV{Nil: "true", Tag: "0"}}, true, false
 	case "strings.Builder.WriteRune", "bytes.Buffer.WriteRune", "strings.Builder.WriteByte", "bytes.Buffer.WriteByte":
 		use(key + " appends one byte (ASCII only for runes)")
 		p, s := bufCell()
@@ -334,7 +355,7 @@ func (fc *funcCtx) nativeCall(st *State, ins ssa.Instruction, key string, callee
 		if strings.HasSuffix(key, "WriteRune") {
 			fc.oblige(st, "ascii", "WriteRune/"+fc.site(ins.Pos(), "call"), and(app("<=", "0", a.T), app("<", a.T, "128")), "WriteRune is modelled for ASCII only")
 		}
-		fc.store(st, p, Sc{app("str.cat", s.T, app("str.chr", a.T)), SStr}, ins.Pos())
+		fc.store(st, p, Sc{app("gs.cat", s.T, app("gs.chr", a.T)), SStr}, ins.Pos())
 		if strings.HasSuffix(key, "WriteByte") {
 			return IfaceV{Nil: "true", Tag: "0"}, true, false
 		}
@@ -345,19 +366,19 @@ func (fc *funcCtx) nativeCall(st *State, ins ssa.Instruction, key string, callee
 		return s, true, false
 	case "strings.Builder.Len", "bytes.Buffer.Len":
 		_, s := bufCell()
-		return Sc{app("str.len", s.T), SInt}, true, false
+		return Sc{app("gs.len", s.T), SInt}, true, false
 	case "strings.Builder.Reset", "bytes.Buffer.Reset":
 		p, _ := bufCell()
-		fc.store(st, p, Sc{"str.empty", SStr}, ins.Pos())
+		fc.store(st, p, Sc{"gs.empty", SStr}, ins.Pos())
 		return TupleV{}, true, false
 	case "bytes.Buffer.Bytes":
 		use(key + " returns the accumulated text as bytes")
 		_, s := bufCell()
-		res := fc.alloc(st, types.Typ[types.Uint8], app("str.len", s.T), app("str.len", s.T), false)
+		res := fc.alloc(st, types.Typ[types.Uint8], app("gs.len", s.T), app("gs.len", s.T), false)
 		h := fc.heap(st, SInt)
 		nh := st.freshConst("heap", heapSort(SInt))
 		st.assume(fmt.Sprintf("(forall ((r Int)) (! (=> (not (= r %s)) (= (select %s r) (select %s r))) :pattern ((select %s r))))", res.Ref, nh, h, nh))
-		st.assume(fmt.Sprintf("(forall ((i Int)) (! (=> (and (<= 0 i) (< i (str.len %s))) (= (select (select %s %s) i) (str.at %s i))) :pattern ((select (select %s %s) i))))", s.T, nh, res.Ref, s.T, nh, res.Ref))
+		st.assume(fmt.Sprintf("(forall ((i Int)) (! (=> (and (<= 0 i) (< i (gs.len %s))) (= (select (select %s %s) i) (gs.at %s i))) :pattern ((select (select %s %s) i))))", s.T, nh, res.Ref, s.T, nh, res.Ref))
 		st.heaps[SInt] = nh
 		return res, true, false
 	case "strings.Map":
@@ -373,7 +394,7 @@ func (fc *funcCtx) nativeCall(st *State, ins ssa.Instruction, key string, callee
 		}
 		s := args[1].(Sc)
 		site := fc.site(ins.Pos(), "call")
-		fc.oblige(st, "ascii", "strings.Map/"+site, app("str.ascii", s.T), "strings.Map is modelled for ASCII input only")
+		fc.oblige(st, "ascii", "strings.Map/"+site, app("gs.ascii", s.T), "strings.Map is modelled for ASCII input only")
 		// side condition on the mapping: ASCII in, ASCII (non-negative, one byte) out
 		{
 			st2 := st.clone()
@@ -387,13 +408,13 @@ func (fc *funcCtx) nativeCall(st *State, ins ssa.Instruction, key string, callee
 			fc.oblige(st2, "ascii", "strings.Map/"+site+"/mapping", and(app("<=", "0", rc), app("<", rc, "128")), "the mapping sends ASCII to ASCII (so the result has the same length)")
 		}
 		r := st.freshConst("mapped", SStr)
-		st.assume(app("=", app("str.len", r), app("str.len", s.T)))
-		env := &Env{vars: map[string]Value{mcon.Params[0]: Sc{app("str.at", s.T, "i"), SInt}, mcon.Results[0]: Sc{app("str.at", r, "i"), SInt}}, st: st, fc: fc, bound: map[string]string{"i": SInt}}
+		st.assume(app("=", app("gs.len", r), app("gs.len", s.T)))
+		env := &Env{vars: map[string]Value{mcon.Params[0]: Sc{app("gs.at", s.T, "i"), SInt}, mcon.Results[0]: Sc{app("gs.at", r, "i"), SInt}}, st: st, fc: fc, bound: map[string]string{"i": SInt}}
 		var posts []string
 		for _, en := range mcon.Ensures {
 			posts = append(posts, fc.e.cevalBool(en.E, env))
 		}
-		st.assume(fmt.Sprintf("(forall ((i Int)) (! (=> (and (<= 0 i) (< i (str.len %s))) %s) :pattern ((str.at %s i))))", s.T, and(posts...), r))
+		st.assume(fmt.Sprintf("(forall ((i Int)) (! (=> (and (<= 0 i) (< i (gs.len %s))) %s) :pattern ((gs.at %s i))))", s.T, and(posts...), r))
 		return Sc{r, SStr}, true, false
 	case "lukechampine.com/blake3.Sum256":
 		use("blake3.Sum256 is a function of the bytes hashed (uninterpreted; collision-freedom is a separate named assumption)")
@@ -420,11 +441,74 @@ func (fc *funcCtx) nativeCall(st *State, ins ssa.Instruction, key string, callee
 		}
 		h := fc.heap(st, SStr)
 		a := app("select", app("select", h, sv.Ref), sv.Off)
-		b := app("select", app("select", h, sv.Ref), plus(sv.Off, "1"))
-		lo := fmt.Sprintf("(ite (str.lt %s %s) %s %s)", b, a, b, a)
-		hi := fmt.Sprintf("(ite (str.lt %s %s) %s %s)", b, a, a, b)
-		st.heaps[SStr] = app("store", h, sv.Ref, app("store", app("store", app("select", h, sv.Ref), sv.Off, lo), plus(sv.Off, "1"), hi))
+		b := app("select", app("select", h, sv.Ref), elemIx(sv.Off, "1"))
+		lo := fmt.Sprintf("(ite (gs.lt %s %s) %s %s)", b, a, b, a)
+		hi := fmt.Sprintf("(ite (gs.lt %s %s) %s %s)", b, a, a, b)
+		st.heaps[SStr] = app("store", h, sv.Ref, app("store", app("store", app("select", h, sv.Ref), sv.Off, lo), elemIx(sv.Off, "1"), hi))
 		return TupleV{}, true, false
+	case "bufio.NewScanner":
+		use("bufio.Scanner: a finite input is a finite sequence of lines; Scan consumes one line per successful call (ghost counter scanRemaining); the 64 KiB token limit ends the sequence early and is NOT part of this model (see the bounded clause)")
+		n := st.freshConst("scanRemaining", SInt)
+		st.assume(app("<=", "0", n))
+		st.ghost["scanRemaining"] = Sc{n, SInt}
+		key := fmt.Sprintf("scanner:%d", freshCounter)
+		freshCounter++
+		st.cells[key] = Sc{"gs.empty", SStr}
+		return PtrV{Cell: key, IsNil: "false"}, true, false
+	case "bufio.Scanner.Scan":
+		rem := st.ghost["scanRemaining"].(Sc)
+		okc := st.freshConst("scanok", SBool)
+		st.assume(implies(okc, app(">", rem.T, "0")))
+		st.ghost["scanRemaining"] = Sc{fmt.Sprintf("(ite %s (- %s 1) %s)", okc, rem.T, rem.T), SInt}
+		if p, ok := args[0].(PtrV); ok {
+			st.cells[p.Cell] = Sc{st.freshConst("line", SStr), SStr}
+		}
+		return Sc{okc, SBool}, true, false
+	case "bufio.Scanner.Buffer":
+		return TupleV{}, true, false
+	case "bufio.Scanner.Text":
+		p, ok := args[0].(PtrV)
+		if !ok {
+			fc.abort("Scanner.Text on %T", args[0])
+		}
+		return st.cells[p.Cell], true, false
+	case "encoding/xml.NewDecoder":
+		use("encoding/xml.Decoder: a finite input yields finitely many tokens (ghost counter xmlRemaining); Token returns a token (consuming one), io.EOF, or an error; once it has returned a non-EOF error every later call returns an error again (sticky)")
+		n := st.freshConst("xmlRemaining", SInt)
+		st.assume(app("<=", "0", n))
+		st.ghost["xmlRemaining"] = Sc{n, SInt}
+		st.ghost["xmlFailed"] = Sc{"false", SBool}
+		key := fmt.Sprintf("xmldecoder:%d", freshCounter)
+		freshCounter++
+		st.cells[key] = Sc{"0", SInt}
+		return PtrV{Cell: key, IsNil: "false"}, true, false
+	case "encoding/xml.Decoder.Token":
+		rem := st.ghost["xmlRemaining"].(Sc)
+		failed := st.ghost["xmlFailed"].(Sc)
+		errNil := st.freshConst("tokErrNil", SBool)
+		isEOF := st.freshConst("tokEOF", SBool)
+		tag := st.freshConst("tokErrTag", SInt)
+		st.assume(implies(failed.T, and(not(errNil), not(isEOF))))
+		st.assume(implies(errNil, and(app(">", rem.T, "0"), not(isEOF))))
+		st.assume(app("=", app("gs.eq", app("err.msg", tag), fc.e.literal("EOF")), isEOF))
+		st.ghost["xmlRemaining"] = Sc{fmt.Sprintf("(ite %s (- %s 1) %s)", errNil, rem.T, rem.T), SInt}
+		st.ghost["xmlFailed"] = Sc{or(failed.T, and(not(errNil), not(isEOF))), SBool}
+		return TupleV{IfaceV{Nil: st.freshConst("tokNil", SBool), Tag: "0"}, IfaceV{Nil: errNil, Tag: tag}}, true, false
+	case "encoding/xml.Decoder.DecodeElement":
+		rem := st.ghost["xmlRemaining"].(Sc)
+		failed := st.ghost["xmlFailed"].(Sc)
+		nrem := st.freshConst("xmlRemaining", SInt)
+		st.assume(and(app("<=", "0", nrem), app("<=", nrem, rem.T)))
+		errNil := st.freshConst("decErrNil", SBool)
+		st.assume(implies(failed.T, not(errNil)))
+		st.ghost["xmlRemaining"] = Sc{nrem, SInt}
+		st.ghost["xmlFailed"] = Sc{or(failed.T, not(errNil)), SBool}
+		if p, ok := args[1].(PtrV); ok && !p.Heap {
+			if old, ok := st.cells[p.Cell]; ok {
+				st.cells[p.Cell] = fc.havocValue(st, old, "decoded")
+			}
+		}
+		return IfaceV{Nil: errNil, Tag: st.freshConst("decErrTag", SInt)}, true, false
 	case "errors.New", "fmt.Errorf":
 		use(key + " returns a non-nil error")
 		return IfaceV{Nil: "false", Tag: st.freshConst("errtag", SInt)}, true, false
@@ -454,4 +538,39 @@ func (fc *funcCtx) nativeInvoke(st *State, ins ssa.Instruction, name string, rec
 		return Sc{app("err.msg", tag), SStr}, true
 	}
 	return nil, false
+}
+
+// applyPure models a call through a function value loaded from a slice as an
+// uninterpreted function of (id, args): user-supplied callbacks are assumed to
+// be deterministic and side-effect free.
+func (fc *funcCtx) applyPure(st *State, fid Sc, com *ssa.CallCommon) (Value, bool) {
+	sig := com.Signature()
+	if sig.Results().Len() != 1 {
+		return nil, false
+	}
+	rs, ok := scalarSort(sig.Results().At(0).Type())
+	if !ok {
+		return nil, false
+	}
+	name := "apply"
+	params := []CVar{{"f", "int"}}
+	args := []string{fid.T}
+	sortType := map[string]string{SInt: "int", SBool: "bool", SReal: "real", SStr: "string"}
+	for i, a := range com.Args {
+		v, ok := fc.val(st, a).(Sc)
+		if !ok {
+			return nil, false
+		}
+		name += "_" + v.S
+		params = append(params, CVar{fmt.Sprintf("a%d", i), sortType[v.S]})
+		args = append(args, v.T)
+	}
+	name += "_" + rs
+	fc.e.mu.Lock()
+	if _, ok := fc.e.cs.Specs[name]; !ok {
+		fc.e.cs.Specs[name] = &SpecFunc{Name: name, Params: params, Result: sortType[rs]}
+	}
+	fc.e.used["callbacks passed in slices are deterministic, side-effect-free functions ("+name+")"] = true
+	fc.e.mu.Unlock()
+	return Sc{app(name, args...), rs}, true
 }
